@@ -46,9 +46,11 @@ def rule_r1(chk, db, conf):
     for b in fscore.fs_bodies(db):
         for bi, si, st in b.stmts():
             rv = st["rv"]
-            if rv["k"] == "agg" and rv.get("adt", "").endswith("::FileWriter"):
+            tg_ = fscore.temp_guard(db)
+            if rv["k"] == "agg" and (rv.get("adt", "").endswith("::FileWriter") or (tg_ and rv.get("adt", "").rsplit("::", 1)[-1] == tg_[0])):
                 m = dict(zip(rv["fields"], rv["ops"]))
-                for f in ("tmp_path", "dest_path"):
+                # every path the writer (or its temp-file guard) stores
+                for f in [f_ for f_, o_ in m.items() if flow.op_place(o_) is not None and "Path" in b.locals[flow.op_place(o_)["l"]]]:
                     c = fscore.classify_path(db, b, m[f], bi, conf)
                     if c["conf"]:
                         chk.ok("R1", "FileWriter.%s" % f, b.loc(bi), nontrivial=False)
